@@ -125,6 +125,7 @@ SimCommit ==
     \/ \E p \in OneMem : \E bv \in {PickByVal(grp[p])} :
             \E dt \in {RandomElement({b \in BOOLEAN : Z = 0 /\ (b => ("detached" \in Features /\ RandomElement(1..(3 + Z)) = 1))})} : Commit(p, bv, dt)
     \/ RandomElement(1..(5 + Z)) = 1 /\ \E p \in Mem : ClearPending(p)
+    \/ "extcommit" \in Features /\ \E p \in OneMem : \E q \in {RParty} : \E rs \in {(q \in Members(grp[p].tree)) /\ (RandomElement(1..(4 + Z)) > 1)} : ExternalCommit(q, p, rs)
     \/ \E p \in Mem : \E n \in det[p] : ApplyDetached(p, n)
 
 \* application traffic: bursts, deliveries biased to what the receiver can still read, the newest message
